@@ -305,6 +305,20 @@ def state_problems(case):
                     if int(bhs.numdofs) != len(mapping) or Rb.shape[1] != len(mapping):
                         probs.append(("boundary:size", "boundary space has %d dofs, map has %d entries" % (bhs.numdofs, len(mapping))))
                         continue
+                    # the boundary space must be the hierarchical space over the knot vectors of the FACE
+                    for l in range(Lb):
+                        want_kn = [np.asarray(Mb.knots(l, dd)) for dd in range(Mb.dim)]
+                        got_kv = bhs.knotvectors(l)
+                        if len(got_kv) != len(want_kn) or any(kv.p != Mb.degs[dd] or np.asarray(kv.kv).shape != want_kn[dd].shape
+                                                               or np.abs(np.asarray(kv.kv) - want_kn[dd]).max() > 1e-14
+                                                               for dd, kv in enumerate(got_kv)):
+                            probs.append(("boundary:knotvectors", "boundary((%d,%d)): level %d of the boundary space does not use the knot vectors of the face" % (ax, side, l)))
+                            break
+                    else:
+                        Gb = bhs.represent_fine(truncate=False).toarray()
+                        Rb_own = Mb.rep_hb(ref_b, Lb)
+                        if Gb.shape != Rb_own.shape or np.abs(Gb - Rb_own).max() > TOL:
+                            probs.append(("boundary:represent_fine", "boundary((%d,%d)): the boundary space represents different functions than the face restriction" % (ax, side)))
                     if np.abs(Rf[:, mapping] - Rb).max() > TOL:
                         probs.append(("boundary:function", "restriction of function map[i] to face (%d,%d) is not boundary function i" % (ax, side)))
     except Exception as e:
@@ -328,6 +342,22 @@ def pair_problems(case):
         return []
     M = c04._G["model"]
     probs = []
+    # adaptive-loop usage: the coarse space is a copy taken from the SAME object (with filled caches) before it is
+    # refined further; must give the same prolongation as two independently built spaces
+    try:
+        warm = c04.build(hist)
+        c04.warm(warm.hs)
+        coarse = warm.hs.copy()
+        for ev in ext:
+            c04.apply_event(warm, ev)
+        if not warm.error:
+            Pw = coarse.prolongate_to(warm.hs).toarray()
+            Pc = sc.hs.prolongate_to(sf.hs).toarray()
+            if Pw.shape != Pc.shape or np.abs(Pw - Pc).max() > TOL:
+                probs.append(("prolongate_to:warm-object", "prolongate_to between a copy of a space and the same object refined further "
+                              "differs from the prolongation between two freshly built spaces (stale index caches)"))
+    except Exception as e:
+        probs.append(("prolongate_to:warm-object:exception:%s" % type(e).__name__, "%r" % (e,)))
     try:
         P = sc.hs.prolongate_to(sf.hs).toarray()
         Lc, Lf = sc.hs.numlevels, sf.hs.numlevels
